@@ -1,4 +1,167 @@
-(* Properties_C14.v — placeholder until WeightedProofs.v lands; see DESIGN.md 4 C14. *)
-From PD Require Import Base WeightedModel WeightedObs.
-Theorem C14_placeholder : True. Proof. exact I. Qed.
-Print Assumptions C14_placeholder.
+(* Properties_C14.v — C14: MultiNodeWeightedSampler honours its stop criterion, source order and seeding.
+   Model: WeightedModel.v; proofs: WeightedProofs.v.  Statements only (printed by Coq from the proof
+   file by harness/mkprops.py); every theorem is for ALL choice streams [ch], configurations, fuel
+   values and numbers of calls.  Hypotheses that appear:
+     ch_in_range ch c e : the drawn indices are < number of sources (true of torch.multinomial);
+     all_nonempty c     : no source of length 0 — needed by the cycling criteria because of the known
+                          finding D12 (see cycle_forever_empty_refuted below);
+     fair ch e B n      : every source occurs in every window of B draws (only for progress).
+   [hist_inv c outs s] is the invariant "outs is a history leading to s". *)
+From PD Require Import Base WeightedModel WeightedProofs.
+Open Scope string_scope. Open Scope list_scope. Open Scope nat_scope.
+
+Theorem C14_per_source_order :
+  forall (ch : nat -> nat -> nat) (c : wcfg) (fuel n : nat) (so : option wst) 
+         (outs : list wout) (s : wst) (k : nat),
+       w_run ch c fuel n (w_reset_fresh c so) = (outs, s) ->
+       exists m : nat, prefix (proj k outs) (cyc m (src_items c k)).
+Proof. exact per_source_order. Qed.
+Print Assumptions C14_per_source_order.
+
+Theorem C14_per_source_order_no_restart :
+  forall (ch : nat -> nat -> nat) (c : wcfg) (fuel n : nat) (so : option wst) 
+         (outs : list wout) (s : wst) (k : nat),
+       w_crit c = AllExhausted \/ w_crit c = FirstExhausted ->
+       w_run ch c fuel n (w_reset_fresh c so) = (outs, s) -> prefix (proj k outs) (src_items c k).
+Proof. exact per_source_order_no_restart. Qed.
+Print Assumptions C14_per_source_order_no_restart.
+
+Theorem C14_emitted_items_valid :
+  forall (ch : nat -> nat -> nat) (c : wcfg) (fuel n : nat) (s : wst) (outs : list wout) 
+         (s' : wst) (k x : nat),
+       wfst c s ->
+       w_run ch c fuel n s = (outs, s') -> In (WItem k x) outs -> k < nsrc c /\ In x (src_items c k).
+Proof. exact emitted_items_valid. Qed.
+Print Assumptions C14_emitted_items_valid.
+
+Theorem C14_all_exhausted_complete :
+  forall (ch : nat -> nat -> nat) (c : wcfg) (fuel fuel' n : nat) (so : option wst) 
+         (outs : list wout) (s s' : wst),
+       w_crit c = AllExhausted ->
+       w_run ch c fuel n (w_reset_fresh c so) = (outs, s) ->
+       w_next ch c fuel' s = (WStop, s') -> forall k : nat, k < nsrc c -> proj k outs = src_items c k.
+Proof. exact all_exhausted_complete. Qed.
+Print Assumptions C14_all_exhausted_complete.
+
+Theorem C14_all_exhausted_no_early_stop :
+  forall (ch : nat -> nat -> nat) (c : wcfg) (fuel fuel' n : nat) (so : option wst) 
+         (outs : list wout) (s : wst),
+       w_crit c = AllExhausted ->
+       w_run ch c fuel n (w_reset_fresh c so) = (outs, s) ->
+       (exists k : nat, k < nsrc c /\ Datatypes.length (proj k outs) < Datatypes.length (src_items c k)) ->
+       fst (w_next ch c fuel' s) <> WStop.
+Proof. exact all_exhausted_no_early_stop. Qed.
+Print Assumptions C14_all_exhausted_no_early_stop.
+
+Theorem C14_all_exhausted_stop_sticky :
+  forall (ch : nat -> nat -> nat) (c : wcfg) (fuel fuel' : nat) (outs : list wout) (s s' : wst),
+       w_crit c = AllExhausted ->
+       hist_inv c outs s ->
+       w_next ch c fuel s = (WStop, s') -> forall n : nat, w_run ch c (S fuel') n s' = (repeat WStop n, s').
+Proof. exact all_exhausted_stop_sticky. Qed.
+Print Assumptions C14_all_exhausted_stop_sticky.
+
+Theorem C14_first_exhausted_exact :
+  forall (ch : nat -> nat -> nat) (c : wcfg) (fuel fuel' n : nat) (so : option wst) 
+         (outs : list wout) (s s' : wst),
+       w_crit c = FirstExhausted ->
+       ch_in_range ch c (w_epoch (w_reset_fresh c so)) ->
+       w_run ch c fuel n (w_reset_fresh c so) = (outs, s) ->
+       w_next ch c fuel' s = (WStop, s') ->
+       (exists k : nat,
+          k < nsrc c /\
+          exhk s' k = true /\ posk s' k = Datatypes.length (src_items c k) /\ proj k outs = src_items c k) /\
+       (forall j : nat, prefix (proj j outs) (src_items c j)) /\
+       (forall fuel'' m : nat, w_run ch c (S fuel'') m s' = (repeat WStop m, s')).
+Proof. exact first_exhausted_exact. Qed.
+Print Assumptions C14_first_exhausted_exact.
+
+Theorem C14_cycle_until_all :
+  forall (ch : nat -> nat -> nat) (c : wcfg) (fuel fuel' n : nat) (so : option wst) 
+         (outs : list wout) (s s' : wst),
+       w_crit c = CycleUntilAll ->
+       all_nonempty c ->
+       ch_in_range ch c (w_epoch (w_reset_fresh c so)) ->
+       w_run ch c fuel n (w_reset_fresh c so) = (outs, s) ->
+       w_next ch c fuel' s = (WStop, s') ->
+       forall k : nat,
+       k < nsrc c -> exhk s' k = true /\ Datatypes.length (src_items c k) <= Datatypes.length (proj k outs).
+Proof. exact cycle_until_all. Qed.
+Print Assumptions C14_cycle_until_all.
+
+Theorem C14_exhausted_source_restarts_from_first :
+  forall (ch : nat -> nat -> nat) (c : wcfg) (fuel : nat) (s : wst) (k x : nat) (s' : wst),
+       wfst c s ->
+       posk s k = Datatypes.length (src_items c k) ->
+       w_next ch c fuel s = (WItem k x, s') ->
+       nth_error (src_items c k) 0 = Some x /\ posk s' k = 1 /\ exhk s' k = true /\ restart_ok c.
+Proof. exact exhausted_source_restarts_from_first. Qed.
+Print Assumptions C14_exhausted_source_restarts_from_first.
+
+Theorem C14_cycle_forever_no_stop_fresh :
+  forall (ch : nat -> nat -> nat) (c : wcfg) (fuel n : nat) (so : option wst) 
+         (outs : list wout) (s' : wst),
+       w_crit c = CycleForever ->
+       all_nonempty c ->
+       ch_in_range ch c (w_epoch (w_reset_fresh c so)) ->
+       w_run ch c fuel n (w_reset_fresh c so) = (outs, s') -> ~ In WStop outs.
+Proof. exact cycle_forever_no_stop_fresh. Qed.
+Print Assumptions C14_cycle_forever_no_stop_fresh.
+
+Theorem C14_cycle_forever_always_item :
+  forall (ch : nat -> nat -> nat) (c : wcfg) (fuel : nat) (s : wst),
+       w_crit c = CycleForever ->
+       all_nonempty c ->
+       ch_in_range ch c (w_epoch s) -> exists k x : nat, fst (w_next ch c (S fuel) s) = WItem k x.
+Proof. exact cycle_forever_always_item. Qed.
+Print Assumptions C14_cycle_forever_always_item.
+
+Theorem C14_resume_exact :
+  forall (ch : nat -> nat -> nat) (c : wcfg) (fuel : nat) (s : wst),
+       w_next ch c fuel (w_reset_state c (w_get_state c s)) = w_next ch c fuel s.
+Proof. exact resume_exact. Qed.
+Print Assumptions C14_resume_exact.
+
+Theorem C14_resume_exact_mid_run :
+  forall (ch : nat -> nat -> nat) (c : wcfg) (fuel a b : nat) (s : wst),
+       let s1 := snd (w_run ch c fuel a s) in
+       fst (w_run ch c fuel a s) ++ fst (w_run ch c fuel b (w_reset_state c (w_get_state c s1))) =
+       fst (w_run ch c fuel (a + b) s).
+Proof. exact resume_exact_mid_run. Qed.
+Print Assumptions C14_resume_exact_mid_run.
+
+Theorem C14_choices_deterministic_run :
+  forall (ch ch' : nat -> nat -> nat) (c : wcfg) (fuel n : nat) (s : wst),
+       (forall i : nat, ch (w_epoch s) i = ch' (w_epoch s) i) -> w_run ch c fuel n s = w_run ch' c fuel n s.
+Proof. exact choices_deterministic_run. Qed.
+Print Assumptions C14_choices_deterministic_run.
+
+Theorem C14_progress_all_exhausted :
+  forall (ch : nat -> nat -> nat) (c : wcfg) (B fuel : nat) (s : wst),
+       w_crit c = AllExhausted ->
+       Datatypes.length (w_exh s) = nsrc c ->
+       fair ch (w_epoch s) B (nsrc c) ->
+       fuel > B * count_false (w_exh s) -> fst (w_next ch c fuel s) <> WFuel.
+Proof. exact progress_all_exhausted. Qed.
+Print Assumptions C14_progress_all_exhausted.
+
+Theorem C14_hist_inv_fresh :
+  forall (c : wcfg) (so : option wst), hist_inv c [] (w_reset_fresh c so).
+Proof. exact hist_inv_fresh. Qed.
+Print Assumptions C14_hist_inv_fresh.
+
+Theorem C14_hist_inv_run :
+  forall (ch : nat -> nat -> nat) (c : wcfg) (fuel n : nat) (outs : list wout) 
+         (s : wst) (l : list wout) (s' : wst),
+       hist_inv c outs s -> w_run ch c fuel n s = (l, s') -> hist_inv c (outs ++ l) s'.
+Proof. exact hist_inv_run. Qed.
+Print Assumptions C14_hist_inv_run.
+
+
+(* D12 on the faithful model: an empty source under CycleForever makes next() return WStop *)
+Example C14_cycle_forever_empty_refuted :
+  exists c ch, w_crit c = CycleForever /\ In WStop (fst (w_run ch c 10 3 (w_reset_fresh c None))).
+Proof.
+  exists {| w_sources := [[1;2];[];[20;21;22]]; w_crit := CycleForever; w_batch := 1000 |}, (fun _ i => i mod 3).
+  split; [reflexivity|]. vm_compute. right. left. reflexivity.
+Qed.
